@@ -4,7 +4,7 @@ from .values import *  # noqa
 
 
 class State:
-    __slots__ = ('pc', 'frames', 'cur', 'heap', 'alloc', 'exc', 'ghost', 'log', 'nframes', 'depth', 'facts_seen')
+    __slots__ = ('pc', 'frames', 'cur', 'heap', 'alloc', 'exc', 'ghost', 'log', 'nframes', 'depth', 'facts_seen', 'fact_ids')
 
     def __init__(self):
         self.pc = []
@@ -18,6 +18,7 @@ class State:
         self.nframes = 0
         self.depth = 0
         self.facts_seen = set()
+        self.fact_ids = set()
 
     def copy(self):
         s = State.__new__(State)
@@ -32,6 +33,7 @@ class State:
         s.nframes = self.nframes
         s.depth = self.depth
         s.facts_seen = set(self.facts_seen)
+        s.fact_ids = set(self.fact_ids)
         return s
 
     def assume(self, *conds):
@@ -39,6 +41,15 @@ class State:
             if z3.is_true(c):
                 continue
             self.pc.append(c)
+
+    def fact(self, *conds):
+        """a universally valid statement about the terms it mentions (value ranges, definitional
+        unfoldings); unlike a branch condition it may be exported to other states"""
+        for c in conds:
+            if z3.is_true(c):
+                continue
+            self.pc.append(c)
+            self.fact_ids.add(c.get_id())
 
     def new_frame(self, parent=None, info=None):
         self.nframes += 1
